@@ -101,9 +101,10 @@ func (t *AppendOnlyTree) initCache(tx dbtypes.Txer) error {
 		}
 		return err
 	}
-	t.lastIndex = int64(lastRoot.Index)
+	// lastIndex is only updated once the cache has been rebuilt: if reading a node fails,
+	// the next AddLeaf must rebuild the cache again instead of using a stale one
+	index := int64(lastRoot.Index)
 	currentNodeHash := lastRoot.Hash
-	index := t.lastIndex
 	// It starts in height-1 because 0 is the level of the leafs
 	for h := int(types.DefaultHeight - 1); h >= 0; h-- {
 		currentNode, err := t.getRHTNode(tx, currentNodeHash)
@@ -130,5 +131,6 @@ func (t *AppendOnlyTree) initCache(tx dbtypes.Txer) error {
 	}
 
 	t.lastLeftCache = siblings
+	t.lastIndex = index
 	return nil
 }
